@@ -47,16 +47,17 @@ class Log:
         self.replaced = []
         self.extracted = []
         self.attrs = []
+        self.degraded = []   # functions whose body could not be woven (anchor lost): contract assumed in this run
 
     def count(self, what):
         self.counts[what] = self.counts.get(what, 0) + 1
 
 
 class Line:
-    __slots__ = ("text", "origin", "label")
+    __slots__ = ("text", "origin", "label", "item")
 
-    def __init__(self, text, origin, label=None):
-        self.text, self.origin, self.label = text, origin, label
+    def __init__(self, text, origin, label=None, item=None):
+        self.text, self.origin, self.label, self.item = text, origin, label, item
 
 
 HINT = "@hint-unlabelled"
@@ -201,14 +202,15 @@ def parse_block(lines, start, unitfile, default_label, end_tag="@end"):
     raise ExtractError(f"{unitfile}: unterminated block starting at line {start}")
 
 
-def build_unit(unit_path, repo_root, twin=False):
+def build_unit(unit_path, repo_root, twin=False, force_degrade=None):
     """-> (generated text, [Line], Log, meta)"""
     log = Log()
     with open(unit_path, encoding="utf-8") as f:
         raw = f.read().split("\n")
     unitfile = os.path.relpath(unit_path, VERIF)
     out = []
-    meta = {"unit": os.path.basename(unit_path)[:-3], "safety": None, "default": None, "props": []}
+    meta = {"unit": os.path.basename(unit_path)[:-3], "safety": None, "default": None, "props": [],
+            "force_degrade": dict(force_degrade or {})}
     header = ["#![allow(unused_imports, dead_code, unused_variables, unused_mut, unused_parens, unreachable_code, unreachable_patterns, non_snake_case, unused_assignments, private_interfaces, unused_braces)]",
               "use vstd::prelude::*;", "use std::collections::{HashMap, HashSet};", "use std::hash::Hash;", "use std::fmt::Debug;", "use std::borrow::Borrow;", "verus! {"]
     for h in header:
@@ -221,7 +223,7 @@ def build_unit(unit_path, repo_root, twin=False):
     for l in out:
         if "\n" in l.text:
             for t in l.text.split("\n"):
-                flat.append(Line(t, l.origin, l.label))
+                flat.append(Line(t, l.origin, l.label, l.item))
         else:
             flat.append(l)
     out = flat
@@ -269,7 +271,20 @@ def _process_lines(raw, unitfile, repo_root, out, log, meta, twin, seen):
                     out.append(Line(f"{d}pub struct {w} {{ pub _opaque: u8 }}", ("gen", "opaque stand-in " + w)))
                     log.count("opaque stand-in type")
             elif name == "extract":
-                i = _do_extract(raw, i, unitfile, repo_root, out, log, meta, twin)
+                snap = (len(log.outlined), len(log.replaced), len(log.extracted), len(log.attrs), dict(log.counts), meta.get("twin_k", 0))
+                try:
+                    i = _do_extract(raw, i, unitfile, repo_root, out, log, meta, twin)
+                except ExtractError as e:
+                    # A single function whose body no longer carries the text a hint / outline / normalisation is
+                    # anchored on: the function is left unverified for this run (signature + contract, body dropped),
+                    # so that properties with no obligation in it can still be decided; every labelled obligation
+                    # of the function is reported as undecided (driver).  Anything else stays an error.
+                    if not str(e).startswith("anchor lost"):
+                        raise
+                    del log.outlined[snap[0]:], log.replaced[snap[1]:], log.extracted[snap[2]:], log.attrs[snap[3]:]
+                    log.counts = snap[4]
+                    meta["twin_k"] = snap[5]
+                    i = _do_extract(raw, i, unitfile, repo_root, out, log, meta, twin, degrade=str(e))
                 continue
             else:
                 raise ExtractError(f"{unitfile}:{i+1}: unknown directive @{name}")
@@ -296,7 +311,7 @@ def _kv(words, key, default=None):
     return default
 
 
-def _do_extract(raw, i, unitfile, repo_root, out, log, meta, twin=False):
+def _do_extract(raw, i, unitfile, repo_root, out, log, meta, twin=False, degrade=None):
     s = raw[i]
     m = re.match(r"\s*@extract\s+(\S+)\s*::\s*(.*)$", s)
     if not m:
@@ -328,6 +343,8 @@ def _do_extract(raw, i, unitfile, repo_root, out, log, meta, twin=False):
         kind, name, rest = mm.group(1), mm.group(2), mm.group(3)
     flags = set(rest.split())
     ex = extract(repo_root, rel, kind, name, container or None)
+    if not degrade and ex.describe() in meta.get("force_degrade", {}):
+        degrade = meta["force_degrade"][ex.describe()]      # (Verus rejected the woven text of this item, see driver)
     container = list(ex.container or [])   # (an ambiguous `impl X` header is resolved to `impl X#k` by extract)
     text = ex.text
     if "noattr" not in flags:
@@ -388,6 +405,15 @@ def _do_extract(raw, i, unitfile, repo_root, out, log, meta, twin=False):
             log.count("verified: #[derive(PartialEq)] is structural equality (PartialEqSpecImpl)")
         text = text.replace("#[derive()]", "           ")
     item = Item(ex, text, meta["unit"])
+    if degrade:
+        if kind not in ("fn", "impl") or "stub" in flags:
+            raise ExtractError(degrade)      # only functions with a body (one, or all those of an impl) can be set aside
+        flags = flags | {"stub"}
+        if kind == "impl":
+            _stub_all_fns(item, ex)
+            log.count("degraded: function set aside for this run (anchor lost), contract assumed")
+            log.outlined.append({"item": ex.describe(), "repo_line": ex.first_line, "expression": "<every function body of the impl>",
+                                 "replaced_by": "unimplemented!() (NOT VERIFIED IN THIS RUN: " + degrade + ")"})
     if "stub" in flags and kind == "fn":
         # signature only: the body is dropped and the function becomes an assumed (external_body) callee.
         # Used for callees outside the verifier's reach (nom combinator parsers); listed in evidence.
@@ -400,9 +426,13 @@ def _do_extract(raw, i, unitfile, repo_root, out, log, meta, twin=False):
         item.lines[li].text = item.lines[li].text[:ci] + "{ unimplemented!() }"
         del item.lines[li + 1:]
         item.insert_lines(0, [Line("#[verifier::external_body]", ("gen", "stub: body dropped, assumed callee"))])
-        log.count("stub: callee signature only (assumed total, unverified)")
+        if degrade:
+            log.count("degraded: function set aside for this run (anchor lost), contract assumed")
+        else:
+            log.count("stub: callee signature only (assumed total, unverified)")
         log.outlined.append({"item": ex.describe(), "repo_line": ex.first_line,
-                             "expression": "<whole function body>", "replaced_by": "unimplemented!() (assumed callee)"})
+                             "expression": "<whole function body>",
+                             "replaced_by": "unimplemented!() (" + ("NOT VERIFIED IN THIS RUN: " + degrade if degrade else "assumed callee") + ")"})
     log.extracted.append({"item": ex.describe(), "sha256": ex.sha256,
                           "lines": ex.last_line - ex.first_line + 1})
     prefix_lines, suffix_lines = [], []
@@ -442,6 +472,18 @@ def _do_extract(raw, i, unitfile, repo_root, out, log, meta, twin=False):
         if dname == "endextract":
             i += 1
             break
+        if degrade and dname in ("loop", "before", "after", "bodystart", "bodyend", "arms", "bindtail"):
+            _blk, i = parse_block(raw, i + 1, unitfile, HINT)      # body-level weaving: nothing to weave into
+            continue
+        if degrade and dname in ("outline_stmt", "nzip", "n1", "lift", "split"):
+            i += 1
+            continue
+        if degrade and dname in ("replace", "outline"):
+            try:
+                item.find_anchor(ticks[0], _occ(words))            # (a rewrite of the signature still applies)
+            except ExtractError:
+                i += 1
+                continue
         if dname == "fn":
             item.scope = words[0] if words and words[0] != "*" else None
             i += 1
@@ -629,15 +671,49 @@ def _do_extract(raw, i, unitfile, repo_root, out, log, meta, twin=False):
     for bl in item.lines:
         if bl.label == HINT:
             bl.label = default_label
-    if split_req:
+    if degrade:
+        labs = sorted({l2 for bl in item.lines if bl.label for l2 in bl.label.split(",") if l2 and l2 != HINT})
+        log.degraded.append({"item": ex.describe(), "reason": degrade, "labels": labs})
+    if split_req and not degrade:
         # (vacuity twin: only the function itself, with the per-arm assertions assumed, is asked to prove `false`)
         item.lines = _split(item, 0 if twin else split_req[0], split_req[1], name, log, ex)
+    for bl in prefix_lines + item.lines + suffix_lines:
+        bl.item = ex.describe()
     out.extend(prefix_lines)
     out.extend(item.lines)
     out.extend(suffix_lines)
     for g in gen_impls:
         out.append(Line(g, ("gen", "assumed derive impl for " + name)))
     return i
+
+
+def _stub_all_fns(item, ex):
+    """degrade mode for a whole impl: every method body becomes `{ unimplemented!() }` under external_body"""
+    mt = mask(item.joined())
+    o = find_top_level(mt, "{", 0)
+    if o < 0:
+        raise ExtractError(f"degrade: impl without body in {ex.describe()}")
+    c = match_bracket(mt, o)
+    spans, depth, k = [], 0, o + 1
+    while k < c:
+        ch = mt[k]
+        if ch in "{([":
+            depth += 1
+        elif ch in "})]":
+            depth -= 1
+        elif depth == 0 and mt.startswith("fn", k) and (k == 0 or not (mt[k - 1].isalnum() or mt[k - 1] == "_")) \
+                and not (mt[k + 2].isalnum() or mt[k + 2] == "_"):
+            b = find_top_level(mt, "{;", k)
+            if 0 <= b < c and mt[b] == "{":
+                e = match_bracket(mt, b)
+                spans.append((k, b, e))
+                k = e + 1
+                continue
+        k += 1
+    for (f0, b, e) in reversed(spans):
+        item.replace_span(b, e + 1, "{ unimplemented!() }")
+        li, _ = item._line_index(f0)
+        item.insert_lines(li, [Line("#[verifier::external_body]", ("gen", "degraded: body dropped, contract assumed in this run"))])
 
 
 def _name_result(item, rname):
